@@ -42,6 +42,8 @@ type c04Case struct {
 	LateLen   int       `json:"late_len"`
 	LateSeed  int64     `json:"late_seed"`
 	DelayMs   int       `json:"delay_ms"`
+	Key       int       `json:"key"`    // which station key the client obfuscates its tag to
+	Sweep     bool      `json:"sweep"`  // while the tunnel is open: let 11 minutes elapse for this registration and run the expiry sweep
 	BannerLen int       `json:"banner_len"` // the covert speaks first: it sends this many bytes on accept
 	BannerSeed int64    `json:"banner_seed"`
 	Others    []vfOther `json:"others"`
@@ -69,6 +71,10 @@ type c04Res struct {
 	Reveals  []vfReveal  `json:"reveals"`
 	Marks    []vfMark    `json:"marks"`
 	Returned bool        `json:"returned"`
+	StatusOpen  int      `json:"status_open"`  // used/unused state while the tunnel was still open (client had its answers, had not closed)
+	UpdatesOpen int      `json:"updates_open"` // Update publications by then
+	MarkFirst   bool     `json:"mark_first"`   // the MarkActive publication happened before the relay's first Read/Write on the connection
+	Swept       int      `json:"swept"`        // -1 no sweep; 1 the registration was gone after the sweep under the open tunnel; 0 it survived
 	V6       bool        `json:"v6"`
 	RelayFirst *vfBytes  `json:"relay_first"`
 	EarlyAnswered bool   `json:"early_answered"` // banner / echo of the early data arrived before the client sent anything more
@@ -83,6 +89,8 @@ type c04Conn struct {
 	reads []int
 	calls []vfCall
 	done  bool // a transport answered "found": the relay owns the connection from here on
+	seq        *int64
+	relayStart int64
 	relayFirst *vfBytes // first non-empty Read the relay made on the connection it was handed
 }
 
@@ -95,6 +103,12 @@ func (c *c04Conn) Read(p []byte) (int, error) {
 	}
 	c.mu.Unlock()
 	return n, err
+}
+func (c *c04Conn) vfLogRelayStart() {
+	n := atomic.AddInt64(c.seq, 1)
+	c.mu.Lock()
+	c.relayStart = n
+	c.mu.Unlock()
 }
 func (c *c04Conn) vfLogRelayRead(b []byte) {
 	c.mu.Lock()
@@ -255,7 +269,7 @@ func c04Run(s *vfStation, c c04Case) (res c04Res) {
 		ct.SetParams(&pb.GenericTransportParams{RandomizeDstPort: proto.Bool(c.RandPort)})
 		ct.Prepare(context.Background(), nil)
 		params, _ = ct.GetParams()
-		ct.PrepareKeys(s.pub, secret, ckeys.TransportReader)
+		ct.PrepareKeys(s.pubs[c.Key%len(s.pubs)], secret, ckeys.TransportReader)
 		wrapFn = ct.WrapConn
 	case "prefix":
 		ct := &prefix.ClientTransport{}
@@ -265,14 +279,14 @@ func c04Run(s *vfStation, c c04Case) (res c04Res) {
 		}
 		ct.Prepare(context.Background(), nil)
 		params, _ = ct.GetParams()
-		ct.PrepareKeys(s.pub, secret, ckeys.TransportReader)
+		ct.PrepareKeys(s.pubs[c.Key%len(s.pubs)], secret, ckeys.TransportReader)
 		wrapFn = ct.WrapConn
 	case "obfs4":
 		ct := &obfs4.ClientTransport{}
 		ct.SetParams(&pb.GenericTransportParams{RandomizeDstPort: proto.Bool(c.RandPort)})
 		ct.Prepare(context.Background(), nil)
 		params, _ = ct.GetParams()
-		if err := ct.PrepareKeys(s.pub, secret, ckeys.TransportReader); err != nil {
+		if err := ct.PrepareKeys(s.pubs[c.Key%len(s.pubs)], secret, ckeys.TransportReader); err != nil {
 			res.Err = "preparekeys: " + err.Error()
 			return
 		}
@@ -299,7 +313,7 @@ func c04Run(s *vfStation, c c04Case) (res c04Res) {
 	res.TS = s.wrappingNames()
 
 	cli, srv := net.Pipe()
-	sc := &c04Conn{Conn: srv}
+	sc := &c04Conn{Conn: srv, seq: &s.seq}
 	cli.SetDeadline(time.Now().Add(c04Wait() + time.Duration(c.DelayMs*12)*time.Millisecond))
 	hdone := make(chan struct{})
 	go func() {
@@ -439,6 +453,20 @@ func c04Run(s *vfStation, c c04Case) (res c04Res) {
 		reply = rbuf
 	}
 	res.Flight = hex.EncodeToString(flight)
+	// the tunnel is still open: the client has its answers and has not closed yet
+	res.StatusOpen = s.rm.VerifRegStatus(reg)
+	res.UpdatesOpen = s.updatesOf(reg)
+	res.Swept = -1
+	if c.Sweep {
+		// 11 minutes pass for this registration (more than the 10-minute lifetime of an unused one,
+		// far less than the 6 hours of a used one) and the station's periodic sweep runs
+		s.rm.VerifAgeRegistration(reg, 11*time.Minute)
+		s.rm.RemoveOldRegistrations()
+		res.Swept = 0
+		if s.rm.VerifRegStatus(reg) < 0 {
+			res.Swept = 1
+		}
+	}
 	cli.Close()
 	sc.mu.Lock()
 	recognised := sc.done
@@ -469,6 +497,9 @@ func c04Run(s *vfStation, c c04Case) (res c04Res) {
 	res.Reads = append([]int{}, sc.reads...)
 	res.Calls = append([]vfCall{}, sc.calls...)
 	res.RelayFirst = sc.relayFirst
+	if fu := s.firstUpdateSeq(reg); fu > 0 && sc.relayStart > 0 {
+		res.MarkFirst = fu < sc.relayStart
+	}
 	sc.mu.Unlock()
 	for _, cl := range res.Calls {
 		if cl.Res == "found" {
